@@ -246,9 +246,9 @@ theorem encoded_wf (v : Service) (frame : List Byte) (h : encFrame v = some fram
       rw [hlen]; omega
 
 /-- frames packed from (canonical) services come out as those services: what the peer sent is what
-    `Inbound` yields, once each, in order, for every segmentation (`_partial` as far as C02's
-    round trip is: search and description responses are covered by the correspondence only) -/
-theorem sent_services_surface_partial (vs : List Service) (hok : ∀ v ∈ vs, v.okSimple = true)
+    `Inbound` yields, once each, in order, for every segmentation (every encodable service type,
+    C02's `Service.ok`) -/
+theorem sent_services_surface (vs : List Service) (hok : ∀ v ∈ vs, v.ok = true)
     (fs : List (List Byte)) (hfs : vs.map encFrame = fs.map some)
     (hsz : ∀ f ∈ fs, f.length < 65536)
     (chunks : List (List Byte)) (hc : chunks.flatten = fs.flatten) :
@@ -271,7 +271,7 @@ theorem sent_services_surface_partial (vs : List Service) (hok : ∀ v ∈ vs, v
     | nil => simp at hfs
     | cons f fs =>
       simp only [List.map_cons, List.cons.injEq] at hfs
-      obtain ⟨frame, hf, hdec⟩ := Props.C02.frame_encode_decode_partial v (hok v (List.mem_cons_self ..))
+      obtain ⟨frame, hf, hdec⟩ := Props.C02.frame_encode_decode v (hok v (List.mem_cons_self ..))
       rw [hfs.1] at hf
       cases hf
       have : decodeFrame f = some v := by unfold decodeFrame; rw [hdec []]
